@@ -497,7 +497,16 @@ def _method(proj, ci, f, ctx, containers, tested_foreign, findings, stats):
     # (`k in self.X`, `self.X.get(k)`): the key must determine what E was computed from
     looked_up = set()
     if sn is not None and f.name != "__init__":
+        # a membership test whose only consequence is an exception (a registry refusing duplicates / unknown names) is
+        # not a re-use of a stored value
+        guard_only = set()
         for n in ast.walk(f.node):
+            if isinstance(n, ast.If) and not n.orelse and len(n.body) == 1 and isinstance(n.body[0], ast.Raise):
+                for c in ast.walk(n.test):
+                    guard_only.add(id(c))
+        for n in ast.walk(f.node):
+            if id(n) in guard_only:
+                continue
             if isinstance(n, ast.Compare) and len(n.ops) == 1 and isinstance(n.ops[0], (ast.In, ast.NotIn)):
                 c = n.comparators[0]
                 if isinstance(c, ast.Attribute) and isinstance(c.value, ast.Name) and c.value.id == sn:
